@@ -286,6 +286,9 @@ func (c *FuncCtx) productFacts(a, b *Term) []*Term {
 
 // symValue materialises a symbolic value of Go type t.
 func (c *FuncCtx) symValue(st *State, name string, t types.Type) Value {
+	if isErrorType(t) {
+		return ErrV{Var(name+".isnil", SBool)}
+	}
 	switch u := t.Underlying().(type) {
 	case *types.Basic:
 		if u.Info()&types.IsBoolean != 0 {
@@ -327,11 +330,12 @@ func (c *FuncCtx) symSlice(st *State, name string, elem types.Type) SliceV {
 }
 
 func (c *FuncCtx) sliceFacts(st *State, s SliceV) {
+	// address 0 is the nil slice
 	st.assume(And(Le(ConstI(0), s.Len), Le(s.Len, s.Cap), Le(s.Cap, Const(maxLen)),
-		Le(ConstI(1), s.Addr), Le(s.Addr, Const(maxAddr))))
+		Le(ConstI(0), s.Addr), Le(s.Addr, Const(maxAddr)), Implies(Eq(s.Addr, ConstI(0)), Eq(s.Cap, ConstI(0)))))
 	c.setRange(s.Len, bigZero, maxLen)
 	c.setRange(s.Cap, bigZero, maxLen)
-	c.setRange(s.Addr, bigOne, maxAddr)
+	c.setRange(s.Addr, bigZero, maxAddr)
 }
 
 // field returns (materialising lazily) a field of a symbolic struct.
